@@ -371,6 +371,16 @@ func propC08(run *Run, n int) {
 				continue
 			}
 		}
+		if len(cfg.SetKeys) == 0 && r.Chance(1, 4) {
+			// hand-written set / multiset hunk (the property is about any hunk, not only those Diff emits):
+			// removals drawn from the target's members (repeated, more often than present) and from
+			// non-members, additions drawn from the removals themselves, the members and fresh values —
+			// in particular the same value under `-` and `+`
+			t, dw := handSetHunk(r, cfg, c.lbl == "MULTISET")
+			run.Count("hunk:hand-written")
+			addC08Case(run, c.lbl, t, dw)
+			continue
+		}
 		var a *Val
 		if r.Chance(2, 3) {
 			a = cfg.Arr(r, 0)
@@ -416,6 +426,72 @@ func propC08(run *Run, n int) {
 			addC08Case(run, c.lbl, t, joinHunks(sub))
 		}
 	}
+}
+
+// handSetHunk builds a target holding an array (at the root or below key "k"; sometimes a non-array)
+// and ONE strict hunk addressed to it as a set (`{}`) or multiset (`[]`).
+func handSetHunk(r *Rng, cfg GenCfg, mset bool) (*Val, string) {
+	cfg.ScalarBias = 3
+	arr := cfg.Arr(r, 1)
+	if mset && len(arr.A) > 0 && r.Chance(1, 2) {
+		// repeated members
+		for k := r.Intn(3); k >= 0; k-- {
+			arr.A = append(arr.A, arr.A[r.Intn(len(arr.A))].Clone())
+		}
+	}
+	pool := func() *Val {
+		switch {
+		case len(arr.A) > 0 && r.Chance(3, 5):
+			return arr.A[r.Intn(len(arr.A))].Clone()
+		case r.Chance(1, 2):
+			return cfg.scalar(r)
+		default:
+			return cfg.Doc(r, 2)
+		}
+	}
+	rem := []*Val{}
+	for k := r.Intn(4); k > 0; k-- {
+		if len(rem) > 0 && r.Chance(1, 3) {
+			rem = append(rem, rem[r.Intn(len(rem))].Clone()) // the same value removed again
+		} else {
+			rem = append(rem, pool())
+		}
+	}
+	add := []*Val{}
+	for k := r.Intn(4); k > 0; k-- {
+		if len(rem) > 0 && r.Chance(1, 2) {
+			add = append(add, rem[r.Intn(len(rem))].Clone()) // a value both removed and added
+		} else {
+			add = append(add, pool())
+		}
+	}
+	ws := func(l []*Val) string {
+		out := []string{}
+		for _, v := range l {
+			out = append(out, v.Wire())
+		}
+		return strings.Join(out, " ")
+	}
+	el := "S"
+	if mset {
+		el = "M"
+	}
+	var t *Val = arr
+	path := el
+	if r.Chance(1, 3) {
+		t = VObj("k", arr, "z", VNum(1))
+		path = "K\"6b " + el
+	}
+	if r.Chance(1, 12) {
+		// the addressed value is not an array
+		if t == arr {
+			t = cfg.scalar(r)
+		} else {
+			t.O["k"] = cfg.scalar(r)
+		}
+	}
+	w := fmt.Sprintf("( s %s | | %s | %s | )", path, ws(rem), ws(add))
+	return t, joinHunks([]string{strings.Join(strings.Fields(w), " ")})
 }
 
 // addNullTwin inserts, in front of a keyed member one of whose set keys is null (or absent), a twin
